@@ -1,2 +1,48 @@
-(* C01 -- placeholder while the round-trip proof is being developed: see Msg/RoundTrip.v *)
-From SV Require Import Msg.Types Msg.Encode Msg.Decode.
+(* C01 -- every LDAP message survives encode -> decode unchanged. *)
+From Coq Require Import ZArith NArith List.
+From Coq.Strings Require Import Byte.
+From SV Require Import Base.Bytes Base.Py Gen.Generated Asn1.Model Msg.Types Msg.Encode Msg.Decode Msg.RoundTrip.
+Import ListNotations.
+
+(* For every message value of every protocol operation -- any id, any strings that are valid UTF-8
+   (= any Python str without lone surrogates), any octet strings, lists of any length, filter trees of
+   any shape and of any depth up to the recursion budget d, any controls -- and any octets [rest]
+   following it: decoding the encoding returns the message and exactly [rest].  The only difference
+   ([norm_msg]) is that a decoded paged-results control exposes its raw value octets. *)
+Theorem C01_decode_encode :
+  forall d m rest, wf_msg d m -> unpack_message d (enc_msg m ++ rest) = Ok (norm_msg m, rest).
+Proof. exact msg_rt. Qed.
+
+(* re-encoding the decoded message reproduces the same octets *)
+Theorem C01_reencode_is_identical : forall m, enc_msg (norm_msg m) = enc_msg m.
+Proof. exact enc_norm_msg. Qed.
+
+(* the search filter alone: any shape, any depth within the budget *)
+Theorem C01_filter_round_trip :
+  forall d f rest, (fdepth f <= d)%nat -> wf_filter f -> fits (enc_filter f) ->
+  unpack_filter d (enc_filter f ++ rest) = Ok (f, rest).
+Proof. exact filter_rt. Qed.
+
+Theorem C01_control_round_trip :
+  forall c rest, wf_control c -> fits (enc_control c) -> unpack_control (enc_control c ++ rest) = Ok (norm_control c, rest).
+Proof. exact control_rt. Qed.
+
+(* non-vacuity: a message with a negative id ending in zero octets (the original carry defect), an
+   unknown result code, a paged control, and a nested filter satisfies the hypotheses *)
+Example C01_wf_example :
+  wf_msg 10 (mkMsg (-65536)%Z
+               (SearchRequest [x64; x63] 2 0 0 (2 ^ 40)%Z true
+                  (FAnd [FNot (FPresent [x61]); FSub [x62] (Some [x2a]) [[]; [x29]] None;
+                         FExt (Some [x72]) None [x00; xff] true]) [[x63; x6e]])
+               [CPaged true 100 [x01] None; CGeneric [x31; x2e; x32] false (Some [])]).
+Proof.
+  split; [|split].
+  - cbn. repeat split; try reflexivity; repeat constructor.
+  - repeat constructor; vm_compute; reflexivity.
+  - vm_compute. reflexivity.
+Qed.
+
+Print Assumptions C01_decode_encode.
+Print Assumptions C01_reencode_is_identical.
+Print Assumptions C01_filter_round_trip.
+Print Assumptions C01_control_round_trip.
